@@ -220,6 +220,7 @@ pub fn run(env: &Env, rec: &Recorder, w: Which) -> (String, Vec<&'static str>)
         match crate::hook::find(&r.text, cfg.is_structured(), &cfg.macro_pairs())
         {
             Ok(entries) => o.deviations = model_check::check_entries(&r, cfg, &entries),
+            Err(m) if crate::hook::is_timeout(&m) => o.inconclusive = Some(m),
             Err(m) => o.fail("panic", format!("the parser panicked: {}", m)),
         }
         classify(w, cfg, &r, f, &mut o);
